@@ -244,6 +244,7 @@ def run(chk):
     _escapes_rule(chk, prog)
     _fmtbuf_rule(chk, prog)
     _argsync_rule(chk, prog)
+    _symclass_rule(chk, prog)
 
 
 def _argsync_rule(chk, prog):
@@ -272,3 +273,60 @@ def _argsync_rule(chk, prog):
                               "`args -= s->argn` below the start of the stack and returns out-of-bounds heap words as :args" % (x.text()[:40], fn.name))
     if n < 2:
         raise AnalysisBroken("parse.c: only %d resets of argcount found" % n)
+
+
+def _classes(fn):
+    """lexical classes a function tests for, read off its constants and calls"""
+    out = set()
+    for x in fn.nodes:
+        t = x.text()
+        if x.k == "call":
+            c = x.callee or ""
+            if c.startswith("janet_scan_num"):
+                out.add("number")
+            if c in ("check_str_const", "janet_cstrcmp", "strcmp", "memcmp", "janet_symeq"):
+                for lit in ("nil", "true", "false"):
+                    if '"%s"' % lit in t:
+                        out.add(lit)
+        if x.k == "bin" and x.op in ("==", "!=", ">=", "<=", "<", ">"):
+            for k in x.kids:
+                k = strip_casts(k)
+                if k.v == ord(":"):
+                    out.add("keyword-colon")
+                if k.v in (ord("0"), ord("9")):
+                    out.add("leading-digit")
+    return out
+
+
+def _symclass_rule(chk, prog):
+    """The reader decides what a token is by a fixed list of tests (keyword colon, number, nil / true / false, leading
+    digit) and makes a symbol only of what is left.  %j may therefore print a symbol verbatim only if its text fails
+    every one of those tests - the printer's `is this printable` test has to name the same classes."""
+    rule = "C11-SYMCLASS"
+    chk.rule(rule, "the %j printer refuses every symbol whose text the reader would classify as something other than a symbol (same classes as the reader's token classifier)")
+    rd = prog.tus["parse.c"].funcs.get("tokenchar")
+    pr = prog.tus["pp.c"].funcs.get("contains_bad_chars")
+    if rd is None or pr is None:
+        raise AnalysisBroken("tokenchar / contains_bad_chars not found")
+    chk.analysed(rd)
+    chk.analysed(pr)
+    want = _classes(rd)
+    if len(want) < 5:
+        raise AnalysisBroken("tokenchar: token classes not recognised (%s)" % sorted(want))
+    have = _classes(pr)
+    for cls in sorted(want):
+        chk.instance(rule)
+        if cls in have:
+            chk.ok(rule, "printer tests the `%s` class" % cls)
+        else:
+            chk.violation(rule, "pp.c", "contains_bad_chars", "class:%s" % cls, pr.loc,
+                          "the reader (tokenchar) classifies a token by the `%s` test before it makes a symbol, and the %%j printer's "
+                          "contains_bad_chars has no such test: a symbol with that spelling is printed verbatim and reads back as a "
+                          "different value" % cls)
+    # the empty symbol prints as nothing at all
+    chk.instance(rule)
+    if any(x.k == "bin" and x.op in ("==", "!=", "<", "<=") and any(strip_casts(k).v in (0, 1) for k in x.kids) and any(is_ref(strip_casts(k), "len") for k in x.kids) for x in pr.nodes):
+        chk.ok(rule, "printer tests for the empty symbol")
+    else:
+        chk.violation(rule, "pp.c", "contains_bad_chars", "class:empty", pr.loc,
+                      "the empty symbol is not refused: it prints as no text at all and cannot be read back")
